@@ -655,3 +655,296 @@ Proof.
   unfold m_seq_oov, seq_stat, weights. split; intros targets; rewrite map2_map_map, map_map; apply map_ext; intros t;
     rewrite target_oov_spec, target_weight_spec; destruct (mem t masked), (mem t oovs); reflexivity.
 Qed.
+
+(* ====================================================================== *)
+(* The functions translated from metrics.py (gen/Gen_metrics_eval.v) equal *)
+(* the hand-written specifications m_* above.                              *)
+(* ====================================================================== *)
+Lemma map2_map_l' {A A' B C} (f : A' -> B -> C) (g : A -> A') l1 l2 :
+  map2 f (map g l1) l2 = map2 (fun a b => f (g a) b) l1 l2.
+Proof. revert l2. induction l1 as [|a l1 IH]; intros [|b l2]; try reflexivity. rewrite map_cons, !map2_cons. f_equal. apply IH. Qed.
+Lemma map2_map_r' {A B B' C} (f : A -> B' -> C) (g : B -> B') l1 l2 :
+  map2 f l1 (map g l2) = map2 (fun a b => f a (g b)) l1 l2.
+Proof. revert l2. induction l1 as [|a l1 IH]; intros [|b l2]; try reflexivity. rewrite map_cons, !map2_cons. f_equal. apply IH. Qed.
+Lemma map_map2' {A B C D} (g : C -> D) (f : A -> B -> C) l1 l2 :
+  map g (map2 f l1 l2) = map2 (fun a b => g (f a b)) l1 l2.
+Proof. revert l2. induction l1 as [|a l1 IH]; intros [|b l2]; try reflexivity. rewrite !map2_cons, map_cons. f_equal. apply IH. Qed.
+Lemma map2_swap {A B C} (f : A -> B -> C) l1 l2 : map2 f l1 l2 = map2 (fun b a => f a b) l2 l1.
+Proof. revert l2. induction l1 as [|a l1 IH]; intros [|b l2]; try reflexivity. rewrite !map2_cons. f_equal. apply IH. Qed.
+Lemma map2_map2_r {A B C D} (f : C -> B -> D) (g : A -> B -> C) l1 l2 :
+  map2 f (map2 g l1 l2) l2 = map2 (fun a b => f (g a b) b) l1 l2.
+Proof. revert l2. induction l1 as [|a l1 IH]; intros [|b l2]; try reflexivity. rewrite !map2_cons. f_equal. apply IH. Qed.
+Lemma map2_ext' {A B C} (f g : A -> B -> C) l1 l2 : (forall a b, f a b = g a b) -> map2 f l1 l2 = map2 g l1 l2.
+Proof. intros H. revert l2. induction l1 as [|a l1 IH]; intros [|b l2]; try reflexivity. rewrite !map2_cons, H. f_equal. apply IH. Qed.
+Lemma map2_same_map {A B C} (f : B -> C -> B) (g : A -> B) (h : A -> C) l :
+  map2 f (map g l) (map h l) = map (fun x => f (g x) (h x)) l.
+Proof. apply map2_map_map. Qed.
+
+Lemma any_b_map {A} (f : A -> bool) l : any_b (map f l) = existsb f l.
+Proof. unfold any_b. induction l as [|x l IH]; cbn; [reflexivity|]. now rewrite IH. Qed.
+Lemma all_b_map {A} (f : A -> bool) l : all_b (map f l) = forallb f l.
+Proof. unfold all_b. induction l as [|x l IH]; cbn; [reflexivity|]. now rewrite IH. Qed.
+Lemma py_slice_map {A B} (f : A -> B) l a b : py_slice (map f l) a b = map f (py_slice l a b).
+Proof. unfold py_slice. now rewrite skipn_map, firstn_map. Qed.
+
+(* get_target_weight: the loop over masked values on whole arrays = per-target fold *)
+Lemma fold_vec_weight T : forall ms (f : Z -> Z),
+  fold_left (fun W mv => map2 (fun w b => w * b2z b) W (map negb (map (fun x => x =? mv) T))) ms (map f T) =
+  map (fun t => fold_left (fun w mv => w * b2z (negb (t =? mv))) ms (f t)) T.
+Proof.
+  induction ms as [|m ms IH]; intros f; [reflexivity|].
+  cbn [fold_left]. rewrite map_map, map2_same_map. apply (IH (fun t => f t * b2z (negb (t =? m)))).
+Qed.
+
+Lemma gen_get_target_weight_spec T ms : gen_get_target_weight T ms = weights ms T.
+Proof. unfold gen_get_target_weight, weights, target_weight. apply (fold_vec_weight T ms (fun _ => 1)). Qed.
+
+Lemma fold_vec_oov T : forall vs (f : Z -> Z),
+  fold_left (fun O v => map2 (fun o b => Z.max o (b2z b)) O (map (fun x => x =? v) T)) vs (map f T) =
+  map (fun t => fold_left (fun o v => Z.max o (b2z (t =? v))) vs (f t)) T.
+Proof.
+  induction vs as [|v vs IH]; intros f; [reflexivity|].
+  cbn [fold_left]. rewrite map2_same_map. apply (IH (fun t => Z.max (f t) (b2z (t =? v)))).
+Qed.
+
+Lemma topk_correct_gen k s t :
+  b2z (any_b (map (fun x => x =? t) (py_slice (argsort_z (map ext_neg s)) 0 (Z.max k 0)))) = topk_correct k s t.
+Proof.
+  unfold topk_correct, argsort_z. rewrite py_slice_map, map_map, any_b_map. reflexivity.
+Qed.
+
+Lemma masked_pred lm P :
+  match lm with Some lm_ => add_mask_mat P lm_ | None => fin_mat P end = map (mask_scores lm) P.
+Proof. destruct lm; reflexivity. Qed.
+
+Lemma seq_stat_gen (pp : bool) vals ws :
+  (if pp then map2 mean_new (map2 Z.mul vals ws) ws else [mean_new (zsum (map2 Z.mul vals ws)) (zsum ws)]) =
+  seq_stat pp vals ws.
+Proof. unfold seq_stat. destruct pp; [|reflexivity]. apply map2_map2_r. Qed.
+
+Lemma gen_cross_entropy_spec t p ce : gen_cross_entropy t p ce = m_cross_entropy ce.
+Proof. reflexivity. Qed.
+Lemma gen_accuracy_spec t s : gen_accuracy t s = m_accuracy s t.
+Proof. reflexivity. Qed.
+Lemma gen_topk_spec k t s : gen_topk k t s = m_topk k s t.
+Proof. unfold gen_topk, m_topk, fin_vec. now rewrite topk_correct_gen. Qed.
+
+Lemma gen_seq_token_ce_spec masked pp T P ce : gen_seq_token_ce masked pp T P ce = m_seq_token_ce masked pp T ce.
+Proof.
+  unfold gen_seq_token_ce, m_seq_token_ce, seq_statQ. rewrite gen_get_target_weight_spec.
+  destruct pp; [|reflexivity]. apply map2_map2_r.
+Qed.
+Lemma gen_seq_ce_spec masked T P ce : gen_seq_ce masked T P ce = m_seq_ce masked T ce.
+Proof. unfold gen_seq_ce, m_seq_ce. now rewrite gen_get_target_weight_spec. Qed.
+
+Lemma gen_seq_token_acc_spec masked lm pp T P :
+  gen_seq_token_acc masked lm pp T P = m_seq_token_acc masked lm pp T P.
+Proof.
+  unfold gen_seq_token_acc, m_seq_token_acc. cbv zeta. rewrite masked_pred, gen_get_target_weight_spec, seq_stat_gen.
+  f_equal. rewrite map_map2', map2_map_r', map2_map_r', map2_swap. reflexivity.
+Qed.
+
+Lemma gen_seq_token_topk_spec k masked lm pp T P :
+  gen_seq_token_topk k masked lm pp T P = m_seq_token_topk k masked lm pp T P.
+Proof.
+  unfold gen_seq_token_topk, m_seq_token_topk. cbv zeta. rewrite masked_pred, gen_get_target_weight_spec, seq_stat_gen.
+  f_equal. unfold rows_any_eq. rewrite !map_map, map_map2', map2_map_l'.
+  apply map2_ext'. intros row t. apply topk_correct_gen.
+Qed.
+
+Lemma gen_seq_token_count_spec masked T : gen_seq_token_count masked T = m_seq_token_count masked T.
+Proof. unfold gen_seq_token_count, m_seq_token_count. now rewrite gen_get_target_weight_spec. Qed.
+Lemma gen_seq_count_spec masked T : gen_seq_count masked T = m_seq_count masked T.
+Proof. unfold gen_seq_count, m_seq_count. now rewrite gen_get_target_weight_spec. Qed.
+Lemma gen_seq_trunc_spec eos masked T : gen_seq_trunc eos masked T = m_seq_trunc eos masked T.
+Proof.
+  unfold gen_seq_trunc, m_seq_trunc. cbv zeta. rewrite gen_get_target_weight_spec, map_map, all_b_map. reflexivity.
+Qed.
+Lemma gen_seq_oov_spec oovs masked pp T : gen_seq_oov oovs masked pp T = m_seq_oov oovs masked pp T.
+Proof.
+  unfold gen_seq_oov, m_seq_oov. cbv zeta. rewrite gen_get_target_weight_spec, seq_stat_gen. f_equal.
+  apply (fold_vec_oov T oovs (fun _ => 0)).
+Qed.
+Lemma gen_seq_length_spec masked T : gen_seq_length masked T = m_seq_length masked T.
+Proof. unfold gen_seq_length, m_seq_length. now rewrite gen_get_target_weight_spec. Qed.
+
+Lemma map2_seq_repeat {A B} (f : nat -> A -> B) (x : A) n : forall a,
+  map2 f (seq a n) (repeat x n) = map (fun i => f i x) (seq a n).
+Proof. induction n as [|n IH]; intros a; [reflexivity|]. cbn [seq repeat map]. rewrite map2_cons. f_equal. apply IH. Qed.
+
+Lemma mat_set_zeros n t p : mat_set (zeros_mat (Z.of_nat n) (Z.of_nat n)) t (Z.of_nat p) 1 =
+  map (fun r => map (fun c => b2z ((Z.of_nat r =? t) && (c =? p)%nat)) (seq 0 n)) (seq 0 n).
+Proof.
+  unfold mat_set, zeros_mat. rewrite !Nat2Z.id, repeat_length, map2_seq_repeat.
+  apply map_ext. intros r. rewrite repeat_length, map2_seq_repeat. apply map_ext. intros c.
+  destruct (Z.of_nat r =? t); [|reflexivity]. cbn [andb].
+  destruct (c =? p)%nat eqn:E.
+  - apply Nat.eqb_eq in E. subst. now rewrite Z.eqb_refl.
+  - apply Nat.eqb_neq in E. destruct (Z.of_nat c =? Z.of_nat p) eqn:E'; [apply Z.eqb_eq in E'; lia|reflexivity].
+Qed.
+
+Lemma gen_confusion_spec nc t s : gen_confusion nc t s = m_confusion nc s t.
+Proof.
+  unfold gen_confusion, m_confusion. destruct (nc =? Z.of_nat (length s)) eqn:E; [|reflexivity].
+  apply Z.eqb_eq in E. subst nc. cbn [negb]. f_equal. unfold argmax_z, fin_vec. rewrite mat_set_zeros, Nat2Z.id. reflexivity.
+Qed.
+
+(* the correspondence evaluates exactly the specification functions *)
+Definition eval_base_spec (c : base_case) : result :=
+  match c with
+  | KCE ce => scalarQ (m_cross_entropy ce)
+  | KAcc s t => scalarZ (m_accuracy s t)
+  | KTopK k s t => scalarZ (m_topk k s t)
+  | KSeqTokCE masked pp targets ce => seqQ pp (m_seq_token_ce masked pp targets ce)
+  | KSeqCE masked targets ce => scalarQ (m_seq_ce masked targets ce)
+  | KSeqTokAcc masked lm pp targets scores => seqZ pp (m_seq_token_acc masked lm pp targets scores)
+  | KSeqTokTopK k masked lm pp targets scores => seqZ pp (m_seq_token_topk k masked lm pp targets scores)
+  | KTokCount masked targets => RSum [] [zq (m_seq_token_count masked targets)]
+  | KSeqCount masked targets => RSum [] [zq (m_seq_count masked targets)]
+  | KTrunc eos masked targets => scalarZ (m_seq_trunc eos masked targets)
+  | KOOV oovs masked pp targets => seqZ pp (m_seq_oov oovs masked pp targets)
+  | KLen masked targets => scalarZ (m_seq_length masked targets)
+  | KConf nc s t => match m_confusion nc s t with Some m => RSum [nc; nc] (map zq (concat m)) | None => RErr end
+  end.
+
+Lemma eval_base_is_spec c : eval_base c = eval_base_spec c.
+Proof.
+  destruct c; cbn [eval_base eval_base_spec];
+    rewrite ?gen_topk_spec, ?gen_seq_token_ce_spec, ?gen_seq_ce_spec, ?gen_seq_token_acc_spec,
+      ?gen_seq_token_topk_spec, ?gen_seq_token_count_spec, ?gen_seq_count_spec, ?gen_seq_trunc_spec,
+      ?gen_seq_oov_spec, ?gen_seq_length_spec, ?gen_confusion_spec; reflexivity.
+Qed.
+
+Lemma gen_per_domain_spec {A} nd dom (zero x : A) : gen_per_domain nd dom zero x = per_domain nd dom zero x.
+Proof. unfold gen_per_domain, per_domain, one_hot_b. rewrite map_map. reflexivity. Qed.
+
+Lemma translated_metrics_are_model :
+  (forall T ms, gen_get_target_weight T ms = weights ms T) /\
+  (forall t p ce, gen_cross_entropy t p ce = m_cross_entropy ce) /\
+  (forall t s, gen_accuracy t s = m_accuracy s t) /\
+  (forall k t s, gen_topk k t s = m_topk k s t) /\
+  (forall masked pp T P ce, gen_seq_token_ce masked pp T P ce = m_seq_token_ce masked pp T ce) /\
+  (forall masked T P ce, gen_seq_ce masked T P ce = m_seq_ce masked T ce) /\
+  (forall masked lm pp T P, gen_seq_token_acc masked lm pp T P = m_seq_token_acc masked lm pp T P) /\
+  (forall k masked lm pp T P, gen_seq_token_topk k masked lm pp T P = m_seq_token_topk k masked lm pp T P) /\
+  (forall masked T, gen_seq_token_count masked T = m_seq_token_count masked T) /\
+  (forall masked T, gen_seq_count masked T = m_seq_count masked T) /\
+  (forall eos masked T, gen_seq_trunc eos masked T = m_seq_trunc eos masked T) /\
+  (forall oovs masked pp T, gen_seq_oov oovs masked pp T = m_seq_oov oovs masked pp T) /\
+  (forall masked T, gen_seq_length masked T = m_seq_length masked T) /\
+  (forall nc t s, gen_confusion nc t s = m_confusion nc s t) /\
+  (forall c, eval_base c = eval_base_spec c) /\
+  (forall (A : Type) nd dom (zero x : A), gen_per_domain nd dom zero x = per_domain nd dom zero x).
+Proof.
+  repeat split; intros; try apply gen_per_domain_spec;
+    first [apply gen_get_target_weight_spec | apply gen_topk_spec | apply gen_seq_token_ce_spec | apply gen_seq_ce_spec
+          | apply gen_seq_token_acc_spec | apply gen_seq_token_topk_spec | apply gen_seq_token_count_spec
+          | apply gen_seq_count_spec | apply gen_seq_trunc_spec | apply gen_seq_oov_spec | apply gen_seq_length_spec
+          | apply gen_confusion_spec | apply eval_base_is_spec | reflexivity].
+Qed.
+
+(* ====================================================================== *)
+(* top-k as a rank condition: the target is counted iff fewer than k        *)
+(* classes precede it in (decreasing score, increasing index) order.        *)
+(* ====================================================================== *)
+Definition ext_eqb (a b : ext) : bool :=
+  match a, b with NInf, NInf | PInf, PInf => true | Fin x, Fin y => x =? y | _, _ => false end.
+Lemma ext_eqb_eq a b : ext_eqb a b = true <-> a = b.
+Proof.
+  destruct a, b; cbn; split; intros H; try discriminate; try reflexivity.
+  - apply Z.eqb_eq in H. now subst.
+  - injection H as ->. apply Z.eqb_refl.
+Qed.
+
+(* class i precedes class j *)
+Definition dltb (s : list ext) (i j : nat) : bool :=
+  ext_ltb (nth j s NInf) (nth i s NInf) || (ext_eqb (nth i s NInf) (nth j s NInf) && (i <? j)%nat).
+Lemma dltb_dlt s i j : dltb s i j = true <-> dlt s i j.
+Proof.
+  unfold dltb, dlt. rewrite orb_true_iff, andb_true_iff, ext_ltb_lt, ext_eqb_eq, Nat.ltb_lt. reflexivity.
+Qed.
+(* number of classes that precede class t *)
+Definition rank (s : list ext) (t : nat) : nat := length (filter (fun j => dltb s j t) (seq 0 (length s))).
+
+Lemma dlt_irrefl s i : ~ dlt s i i.
+Proof. unfold dlt. intros [H|[_ H]]; [now apply ext_lt_irrefl in H|lia]. Qed.
+Lemma dlt_asym s i j : dlt s i j -> ~ dlt s j i.
+Proof.
+  unfold dlt. intros [H|[H1 H2]] [H'|[H1' H2']].
+  - apply (ext_lt_irrefl (nth i s NInf)). eapply ext_lt_trans; eassumption.
+  - rewrite H1' in H. now apply ext_lt_irrefl in H.
+  - rewrite H1 in H'. now apply ext_lt_irrefl in H'.
+  - lia.
+Qed.
+
+Lemma SS_app_cross {A} (R : A -> A -> Prop) l1 l2 : StronglySorted R (l1 ++ l2) ->
+  (forall x y, In x l1 -> In y l2 -> R x y) /\ StronglySorted R l2.
+Proof.
+  induction l1 as [|a l1 IH]; cbn; intros H.
+  - split; [intros x y []|exact H].
+  - inversion H as [|? ? Hs Hall]; subst. destruct (IH Hs) as [I1 I2]. split; [|exact I2].
+    intros x y [<-|Hx] Hy.
+    + rewrite Forall_forall in Hall. apply Hall. apply in_or_app. now right.
+    + now apply I1.
+Qed.
+
+Lemma filter_perm_length {A} (f : A -> bool) l l' : Permutation l l' -> length (filter f l) = length (filter f l').
+Proof.
+  induction 1 as [|x l l' _ IH|x y l|l l' l'' _ IH1 _ IH2]; cbn.
+  - reflexivity.
+  - destruct (f x); cbn; now rewrite IH.
+  - destruct (f x), (f y); reflexivity.
+  - now rewrite IH1.
+Qed.
+Lemma filter_all_true {A} (f : A -> bool) l : (forall x, In x l -> f x = true) -> filter f l = l.
+Proof. induction l as [|x l IH]; cbn; intros H; [reflexivity|]. rewrite (H x) by now left. f_equal. apply IH. intros; apply H; now right. Qed.
+Lemma filter_all_false {A} (f : A -> bool) l : (forall x, In x l -> f x = false) -> filter f l = [].
+Proof. induction l as [|x l IH]; cbn; intros H; [reflexivity|]. rewrite (H x) by now left. apply IH. intros; apply H; now right. Qed.
+
+Lemma existsb_nat_In t l : existsb (fun i => Z.of_nat i =? Z.of_nat t) l = true <-> In t l.
+Proof.
+  rewrite existsb_exists. split.
+  - intros (x & Hx & E). apply Z.eqb_eq in E. apply Nat2Z.inj in E. now subst.
+  - intros H. exists t. split; [exact H|apply Z.eqb_refl].
+Qed.
+
+Lemma In_firstn {A} (x : A) n l : In x (firstn n l) -> In x l.
+Proof. intros H. rewrite <- (firstn_skipn n l). apply in_or_app. now left. Qed.
+
+Lemma topk_is_rank k s t : (t < length s)%nat ->
+  topk_correct k s (Z.of_nat t) = b2z (Z.of_nat (rank s t) <? k).
+Proof.
+  intros Ht. unfold topk_correct, py_slice. cbn [Z.to_nat skipn]. rewrite Z.sub_0_r.
+  set (L := argsort (map ext_neg s)).
+  pose proof (argsort_desc_perm s) as HP. fold L in HP.
+  pose proof (argsort_desc_sorted s) as HS. fold L in HS.
+  assert (Hin : In t L) by (eapply Permutation_in; [symmetry; exact HP|apply in_seq; lia]).
+  assert (HND : NoDup L) by (eapply Permutation_NoDup; [symmetry; exact HP|apply seq_NoDup]).
+  destruct (in_split _ _ Hin) as (l1 & l2 & EL).
+  assert (Hrank : rank s t = length l1).
+  { unfold rank. rewrite (filter_perm_length _ _ _ (Permutation_sym HP)), EL.
+    rewrite EL in HS. destruct (SS_app_cross _ _ _ HS) as [Hcross Hs2].
+    inversion Hs2 as [|? ? _ Hall]; subst. rewrite Forall_forall in Hall.
+    rewrite filter_app. cbn [filter].
+    rewrite (filter_all_true _ l1) by (intros x Hx; apply dltb_dlt; apply Hcross; [exact Hx|now left]).
+    assert (E0 : dltb s t t = false).
+    { destruct (dltb s t t) eqn:E; [|reflexivity]. apply dltb_dlt in E. now apply dlt_irrefl in E. }
+    rewrite E0, (filter_all_false _ l2).
+    - now rewrite app_nil_r.
+    - intros y Hy. destruct (dltb s y t) eqn:E; [|reflexivity]. apply dltb_dlt in E.
+      exfalso. apply (dlt_asym s t y); [apply Hall; exact Hy|exact E]. }
+  rewrite Hrank. rewrite EL in HND. apply NoDup_remove_2 in HND.
+  destruct (Z.of_nat (length l1) <? k) eqn:Ek.
+  - apply Z.ltb_lt in Ek.
+    assert (E : existsb (fun i => Z.of_nat i =? Z.of_nat t) (firstn (Z.to_nat (Z.max k 0)) L) = true).
+    { apply existsb_nat_In. rewrite EL, firstn_app. apply in_or_app. right.
+      replace (Z.to_nat (Z.max k 0) - length l1)%nat with (S (Z.to_nat (Z.max k 0) - length l1 - 1)) by lia.
+      now left. }
+    now rewrite E.
+  - apply Z.ltb_ge in Ek.
+    assert (E : existsb (fun i => Z.of_nat i =? Z.of_nat t) (firstn (Z.to_nat (Z.max k 0)) L) = false).
+    { destruct (existsb _ _) eqn:E; [|reflexivity]. apply existsb_nat_In in E. exfalso.
+      rewrite EL, firstn_app in E. replace (Z.to_nat (Z.max k 0) - length l1)%nat with 0%nat in E by lia.
+      cbn [firstn] in E. rewrite app_nil_r in E. apply HND. apply in_or_app. left. eapply In_firstn; exact E. }
+    now rewrite E.
+Qed.
